@@ -677,6 +677,21 @@ func (c *Ctx) registerTensorIntrinsics(tab map[string]intrinsicFn) {
 			return SliceV{B: &idArr{ids: d, sort: so, owner: s}, Len: len(d), Cap: len(d)}
 		}
 	}
+	// ReturnTensor hands a tensor back to the library's pool: its data and metadata are cleared and the
+	// object may be handed out again - a write to everything the tensor owns
+	tab[P+"ReturnTensor"] = func(c *Ctx, fn *ssa.Function, a []Value) Value {
+		c.E.Stubs["tensor.ReturnTensor"]++
+		s := c.asShadow(a[0])
+		if s == nil {
+			return nil
+		}
+		c.noteDataWrite(s, "ReturnTensor")
+		c.noteMetaWrite(s, "ReturnTensor")
+		if p := c.nativeCall("ReturnTensor", func() { tensor.ReturnTensor(s.ids); tensor.ReturnTensor(s.twin) }); p != nil {
+			panic(p)
+		}
+		return nil
+	}
 	tab[P+"Transpose"] = func(c *Ctx, fn *ssa.Function, a []Value) Value {
 		c.E.Stubs["tensor.Transpose"]++
 		s := c.asShadow(a[0])
